@@ -123,6 +123,9 @@ func (c *exprCtx) of(v ssa.Value) *sx {
 		}
 		return leaf(constString2(x))
 	case *ssa.Parameter:
+		if e, ok := c.extraParamExpr(x); ok {
+			return e
+		}
 		return leaf("p:" + x.Name())
 	case *ssa.Convert:
 		if c.keepConv {
@@ -173,6 +176,21 @@ func (c *exprCtx) of(v ssa.Value) *sx {
 				e.Args = append(e.Args, c.of(a))
 			}
 			return e
+		}
+		if rv, bind, ok := pureHelperResult(x); ok {
+			c2 := *c
+			ps2 := emptyPS()
+			if c.ps != nil {
+				ps2 = c.ps.clone()
+			}
+			if ps2.Bind == nil {
+				ps2.Bind = map[*ssa.Parameter]ssa.Value{}
+			}
+			for k, v := range bind {
+				ps2.Bind[k] = v
+			}
+			c2.ps = ps2
+			return c2.of(rv)
 		}
 		name := calleeName(c.p, x)
 		e := &sx{Op: "call", Name: name}
